@@ -298,6 +298,9 @@ Definition chk_total_return (navs : list Q) (total_returns : Q) : bool :=
   approx (total_return_of navs) total_returns && approx (qsub (compound 1 navs) 1) total_returns.
 Definition chk_benchmark_return (prev : Q) (closes : list Q) (r : Q) : bool :=
   approx (qsub (prod1 (bench_returns prev closes)) 1) r && approx (qsub (qdiv (lastq prev closes) prev) 1) r.
+(* a one-instrument benchmark given with weight w: the analyser's weighted combination, compounded *)
+Definition chk_weighted_benchmark_return (w prev : Q) (closes : list Q) (r : Q) : bool :=
+  approx (qsub (Qred (prod1 (map Qred (bench_series [w] (transpose1 (bench_returns prev closes)))))) 1) r.
 
 (* ---- no look-ahead (C07): the accessors evaluated on the part of the history visible at the moment ---- *)
 From RQ Require Import Model.View.
